@@ -56,6 +56,8 @@ type pev struct {
 	Nested  bool   // resolve issued through build.Resolve from inside a callback
 	Fail    bool   // this callback reports an error
 	Written int    // eb: 1 the output file of THIS build is on disk, 0 it is not, -1 not applicable
+	Imp     string // res: identity of the importing file (from the plugin data its on-load returned); "" = unkeyed
+	Key     string // res: kind|specifier|attributes of the import
 }
 
 type ctxRec struct {
@@ -244,7 +246,12 @@ func (c *ctxRec) plugins() []api.Plugin {
 			if b < 0 || c.startEnds != (b+1)*c.nStartCB {
 				c.failf("on-resolve of %q in build %d ran before all on-start callbacks finished (%d of %d ended)", a.Path, b, c.startEnds-b*c.nStartCB, c.nStartCB)
 			}
-			c.ptrace = append(c.ptrace, pev{B: b, Kind: "res", Mod: a.Path, Nested: nested})
+			ev := pev{B: b, Kind: "res", Mod: a.Path, Nested: nested}
+			if imp, ok := a.PluginData.(string); ok && !nested && strings.HasPrefix(imp, "id:") {
+				ev.Imp = imp[3:]
+				ev.Key = fmt.Sprintf("%d|%s|%s", a.Kind, a.Path, modIdentity("", "", "", a.With))
+			}
+			c.ptrace = append(c.ptrace, ev)
 			re := !nested && c.rng.Intn(100) < c.reenterPct/2
 			k := c.rng.Intn(c.nmods)
 			c.mu.Unlock()
@@ -303,7 +310,7 @@ func (c *ctxRec) plugins() []api.Plugin {
 			}
 			fmt.Fprintf(&sb, "console.log(\"@B%dM%dV%d@\");\n", b, idx, ver)
 			contents := sb.String()
-			r := api.OnLoadResult{Contents: &contents, Loader: api.LoaderJS}
+			r := api.OnLoadResult{Contents: &contents, Loader: api.LoaderJS, PluginData: "id:" + id}
 			if c.trigger != "" {
 				r.WatchFiles = []string{c.trigger}
 			}
